@@ -1113,6 +1113,7 @@ pub fn run_op<'c>(ctx: &'c Ctx<'c>, me: usize, st: &mut ActorState<'c>, opi: usi
                     if let Some((off, old, new)) = m.static_write {
                         harness(|| push_violation(armed, "C15.static_write", "static-data-written", format!("decoding changed process-global state ({}: {old:#04x} -> {new:#04x})", crate::statics::describe(off))));
                     }
+                    let out_before = out.len();
                     let res = harness(|| match &r {
                         Ok(rr) => {
                             match rr {
@@ -1130,6 +1131,8 @@ pub fn run_op<'c>(ctx: &'c Ctx<'c>, me: usize, st: &mut ActorState<'c>, opi: usi
                             Res::Panic(p.clone())
                         }
                     });
+                    let first_rendering: String = harness(|| out[out_before..].to_string());
+                    let first_panicked = matches!(res, Res::Panic(_));
                     harness(|| {
                         let mut fu = false;
                         for (k, s, d) in check_expect(&expect, &bytes, &res, &mut fu) {
@@ -1170,6 +1173,31 @@ pub fn run_op<'c>(ctx: &'c Ctx<'c>, me: usize, st: &mut ActorState<'c>, opi: usi
                         retained = Some((m.retained() - if stored.is_some() { kept } else { 0 }, "decode"));
                     }
                     harness(|| st.slots[slot % NSLOTS] = stored);
+                    // twin call: the same bytes decoded again at once, on the same thread, must give the same
+                    // answer (a result that depends on a randomised hash seed, an address or a counter does not)
+                    if armed.c15 && !first_panicked {
+                        let (r2, _m2) = measured(false, || TimeZone::from_tz_data(&bytes));
+                        harness(|| {
+                            let mut s2 = String::new();
+                            match &r2 {
+                                Ok(Ok(z)) => {
+                                    s2.push_str("Ok(");
+                                    canon::zone(&mut s2, z.as_ref());
+                                    s2.push(')');
+                                }
+                                Ok(Err(e)) => canon::tzerr(&mut s2, e),
+                                Err(p) => {
+                                    let _ = write!(s2, "PANIC({p})");
+                                }
+                            }
+                            if s2 != first_rendering {
+                                push_violation(armed, "C15.alone_vs_concurrent", "same-bytes-decoded-twice-differ", format!("op #{opi} {}: decoding the same {} bytes twice in a row on one thread gave {} and then {}", op.text(), bytes.len(), canon::short(&first_rendering), canon::short(&s2)));
+                            }
+                        });
+                        drop(r2);
+                        probe("decode_twin_call");
+                    }
+                    harness(|| drop(first_rendering));
                 }
             }
         }
